@@ -8,7 +8,8 @@ compute_path_with_disjunction, pth_assign_spectrum, ResultElement), `results_to_
 What was *computed* is observed at the stage boundaries (the lists returned by compute_path_with_disjunction, the
 request objects after pth_assign_spectrum, the mode returned by propagate_and_optimize_mode, the receiver arrays at
 the return of every propagate call); what is *reported* is the response document and the CSV text.  Then
-  * oracle (verified): `response_ok obs resp` (Coq, proved <-> Spec) judges every response; further statements of the
+  * oracle (verified): `response_ok obs resp` (Coq, proved <-> Spec) and the strict `response_exact` (proved <-> Spec and
+    Shape: no extra key, no extra metric entry) judge every response; further statements of the
     property that need the whole batch (every id once, aggregated requests identical, bandwidth summed, bidirectional
     requests carry both directions, CSV pass flag) are evaluated on the same observations here,
   * correspondence: the generator model `pathresult`, the CSV model `csv_row` and the model `requests_aggregation`
@@ -1230,11 +1231,16 @@ def run(ctx):
         if kind == 'resp':
             _, _, rid, o, resp, row, skips = m
             line, _, csv_line = line.partition('@@')
-            v, _, g = line.partition(';')
+            v, _, rest = line.partition(';')
+            x, _, g = rest.partition(';')
             ctx.count('validated')
             if v != 'V:T':
                 ctx.violation('response_not_ok', f'request {rid}: the response does not state what was computed '
                                                  f'(validator response_ok = false)', sc, obs=o, response=resp)
+            elif x != 'X:T':
+                ctx.violation('response_not_exact', f'request {rid}: the response states something besides what was '
+                                                    f'computed (extra key or metric entry: response_exact = false)',
+                              sc, obs=o, response=resp)
             if g != 'G:T':
                 ctx.corr_break('corr:Response.pathresult', f'request {rid}: model response differs at {g[4:][:300]}', sc,
                                impl=resp, model=g[:400])
